@@ -17,6 +17,10 @@ RF_QUICK_INNER_LEAVES = (V("x"), V("y"), C(1), C(2))        # leaves of depth-2 
 RF_QUICK_INNER_POWERS = ((V("x"), -1), (V("x"), 0), (V("x"), 2), (C(2), -1), (C(2), 0), (C(2), 2))
 RF_TERNARY_POOL_QUICK = 9                                   # pool size for Sum3/Product3 parents
 RF_TERNARY_POOL_THOROUGH = 26
+CHAIN4_OUTER = {"quick": (V("x"), C(2)), "thorough": (V("x"), C(2), C(0), C(1))}
+CHAIN4_LEAVES = {"quick": (V("x"), C(0), C(1), C(2)),
+                 "thorough": (V("x"), V("y"), C(0), C(1), C(2))}
+CHAIN4_POWERS = (2, -1, 0)
 POLY_MAX_EXP = 3                                            # exponents 0..3 in the poly4 family
 MAX_FLOAT_DENOM = 4096                                      # decoding of folded float constants
 FLOAT_DECODE_TOL = Fraction(1, 10 ** 9)
@@ -358,6 +362,29 @@ def rf_depth3(tier):
             if all(k[0] in ("int", "Variable") for k in (a, b, c)):
                 continue
             yield (tag, T(a, b, c))
+
+
+def rf_chain4(tier):
+    """Depth-4 chains  P(a, M(.., I(c, d)))  and mirrored: an outer sum/product with one plain
+    operand and one operand M (binary or single-operand sum/product, quotient, literal power)
+    that contains an inner binary sum/product I.  These are the inputs on which an operand only
+    *becomes* a sum/product (or a constant-carrying one) after it has been rewritten itself, and
+    on which a nested sum/product sits beneath a non-sum/product operand."""
+    lv = CHAIN4_LEAVES[tier]
+    inners = [(tag, T(c, d)) for tag in ("Sum", "Product")
+              for c, d in itertools.product(lv, repeat=2)]
+    for inner in inners:
+        mids = [("Sum", T(inner)), ("Product", T(inner))]
+        mids += [("Power", inner, C(e)) for e in CHAIN4_POWERS]
+        for b in lv:
+            mids += [("Sum", T(b, inner)), ("Sum", T(inner, b)),
+                     ("Product", T(b, inner)), ("Product", T(inner, b)),
+                     ("Quotient", inner, b), ("Quotient", b, inner)]
+        for m in mids:
+            for a in CHAIN4_OUTER[tier]:
+                for tag in ("Sum", "Product"):
+                    yield (tag, T(a, m))
+                    yield (tag, T(m, a))
 
 
 def poly4(tier):
